@@ -665,3 +665,22 @@ def fromJsonAuto (env : ClassEnv) (ap : Bool) (j : JV) : Except Err Tree :=
   fromJ env ap (autoDict env j)
 
 end Pg.C05
+
+namespace Pg.C05
+
+/-! ### Histories around serialisation -/
+
+/-- A history: serialise the current value with some options, or continue with the value a
+mutation (at any depth) has produced. -/
+inductive HistOp where
+  | ser (o : JOpts)
+  | put (t : Tree)
+
+/-- SPEC of a history: every serialisation is `to_json` of the value *as it is at that moment*,
+whatever was serialised, queried or memoised before. -/
+def histRun (env : ClassEnv) : Tree → List HistOp → List (Tree × JV)
+  | _, [] => []
+  | t, .ser o :: ops => (t, toJsonO o env t) :: histRun env t ops
+  | _, .put t' :: ops => histRun env t' ops
+
+end Pg.C05
